@@ -70,6 +70,7 @@ class KillWalker:
         self.parent_of = {}
         self._loop_kills = set()
         self.regions = {"bandit"}
+        self.self_only = False
 
     # ------------------------------------------------------------------ public
     def run(self, call_ev):
@@ -314,7 +315,7 @@ class KillWalker:
 
     def note_guard_reads(self, ev, K):
         tv = ev.a.get("test_val")
-        if tv is None:
+        if tv is None or self.self_only:
             return
         for loc in dep_locations(self.eng, tv.deps):
             if loc in self.wanted and loc not in K and loc not in self.early:
@@ -327,7 +328,7 @@ class KillWalker:
         vlocs = dep_locations(eng, value.deps) if value is not None else set()
         bandit_targets = [t for t in ev.a["targets"] if t.region in self.regions]
         # reads of un-reset state flowing into the model that fit builds
-        if bandit_targets:
+        if bandit_targets and not self.self_only:
             for loc in vlocs:
                 if loc in self.wanted and loc not in K and loc not in self.early and \
                         not all(loc_of_target(t) == loc for t in bandit_targets):
